@@ -48,7 +48,7 @@ ASSUMPTIONS = [
 ]
 REAL = ["BaseRunner.run / stop_runner_loop / on_stop", "ThreadRunner._on_stop / _kill_and_reroute / runner_loop_iteration", "orchestrators", "brokers", "DistributedInvocation.run"]
 STUBBED = ["signal delivery", "thread scheduling", "clock", "uuid4"]
-PROBES = ["thread_start_failure", "stop_with_pending", "stop_with_running", "stop_with_waiting_parent", "stop_between_claim_and_thread_start", "stop_idle", "kill_and_reroute"]
+PROBES = ["thread_start_failure", "stop_with_pending", "stop_with_running", "stop_with_waiting_parent", "stop_between_claim_and_thread_start", "stop_idle", "kill_and_reroute", "stop_with_more_threads_than_slots"]
 
 
 def plan(tier: str) -> list[dict]:
@@ -57,6 +57,7 @@ def plan(tier: str) -> list[dict]:
         {"stratum": "mem-loop", "runs": 320 if q else 16000, "params": {"stack": "mem", "where": "loop"}, "chunk": 20 if q else 400},
         {"stratum": "mem-any", "runs": 160 if q else 8000, "params": {"stack": "mem", "where": "any"}, "chunk": 10 if q else 200},
         {"stratum": "sqlite-loop", "runs": 128 if q else 6000, "params": {"stack": "sqlite", "where": "loop"}, "chunk": 8 if q else 150},
+        {"stratum": "sqlite-over-slots", "runs": 96 if q else 4000, "params": {"stack": "sqlite", "where": "over-slots"}, "chunk": 6 if q else 100},
     ]
 
 
@@ -71,19 +72,29 @@ def run(seed: int, params: dict, replay: dict | None = None) -> dict:
     rng = random.Random(f"{seed}:c11")
     idx = seed & 0xFFFF
     kind = rng.choice(["flat", "flat", "tree", "retry"])
+    if where == "over-slots":
+        # the stop lands while the runner has more task threads than slots (parents waiting for children);
+        # a second runner process keeps serving the queue, so the stop can complete
+        kind = "tree"
     slots = rng.choice([1, 2, 3])
     policy = rng.choice(["rand", "rand", "rr"])
     parg = {"rand": rng.choice([0.1, 0.3]), "rr": rng.choice([1, 3])}[policy]
-    n_runners = 2 if (stack == "sqlite" and rng.random() < 0.3) else 1
+    # two runner processes only on SQLite (an in-memory app lives in one process with one runner)
+    n_runners = 2 if (stack == "sqlite" and rng.random() < (0.7 if kind == "tree" else 0.25)) else 1
+    if where == "over-slots":
+        n_runners = 2
+        slots = rng.choice([1, 1, 2])
     names = gen.Names()
     if kind == "flat":
         roots = [gen.gen_prog(rng, names, depth=0, p_fail=0.0, work=(0.01, 0.03, 0.08)) for _ in range(rng.randint(1, 4))]
     elif kind == "tree":
-        roots = [gen.gen_prog(rng, names, depth=2, p_kids=0.9, p_fail=0.0, work=(0.0, 0.02)) for _ in range(rng.randint(1, 2))]
+        roots = [gen.gen_prog(rng, names, depth=2, p_kids=0.9, p_fail=0.0, work=(0.0, 0.02, 0.3)) for _ in range(rng.randint(1, 2))]
     else:
         roots = [gen.gen_prog(rng, names, depth=0, p_fail=0.9, excs=("retry",), work=(0.0, 0.02)) for _ in range(rng.randint(1, 3))]
     # stop step: sweep 1..~600 with the run index, denser at the beginning
     K = 1 + (idx * 7) % 97 + 97 * ((idx // 97) % 6) if where == "loop" else 1 + (idx * 13) % 1500
+    if where == "over-slots":
+        K = 1 + (idx * 5) % 60
     schedule = replay.get("schedule") if replay else None
     viol: list[dict] = []
     with Deployment(seed, stack, n_runners, policy=policy, policy_arg=parg, schedule=schedule, max_steps=300_000, max_time=90.0, conf={"max_threads": slots}) as d:
@@ -124,7 +135,7 @@ def run(seed: int, params: dict, replay: dict | None = None) -> dict:
                 sim.bump("probe.stop_between_claim_and_thread_start")
             sim.bump("fault.stop_request")
             sim.log_event("fault-stop", info["site"])
-            if where == "loop":
+            if where in ("loop", "over-slots"):
                 runner.stop_runner_loop(15, None)
             else:
                 runner.running = False
@@ -137,6 +148,12 @@ def run(seed: int, params: dict, replay: dict | None = None) -> dict:
             if where == "loop":
                 if th.name == "r1/main" and th.nyield >= K:
                     do_stop(th, kind_, detail)
+            elif where == "over-slots":
+                if th.name == "r1/main" and len(runner.threads) > runner.max_parallel_slots:
+                    counter["n"] += 1
+                    if counter["n"] >= K:
+                        sim.bump("probe.stop_with_more_threads_than_slots")
+                        do_stop(th, kind_, detail)
             else:
                 counter["n"] += 1
                 if counter["n"] >= K and th.actor.name == "r1":
@@ -166,7 +183,7 @@ def run(seed: int, params: dict, replay: dict | None = None) -> dict:
                 if info["stop_at"] is not None and sim.now - info["stop_at"] > 20.0 and sim.now - last_change > 10.0:
                     info["stuck"] = True
                     break
-                if info["stop_at"] is None and sim.now - sim.epoch > 40.0:
+                if info["stop_at"] is None and sim.now - sim.epoch > (2.0 if where == "over-slots" else 40.0):
                     # the workload finished before step K was reached: stop now (orderly end)
                     if d.wait_final("c", submitted, timeout=0.0):
                         info["late"] = True
